@@ -4,10 +4,13 @@
                              find_outside_quotes, from_pattern / to_pattern
      slimta/edge/smtp.py     SmtpSession (the handlers object) and SmtpEdge.handle
      slimta/smtp/io.py       recv_command (only the two command regexes, on one complete line)
-   The code modelled is the code AFTER the two fixes
-     fixes/d12-421-after-data.diff                    (_check_close_code after the HAVE_DATA reply)
-     fixes/d25-edge-envelope-after-rejected-data.diff (SmtpSession.HAVE_DATA forgets the envelope
-                                                       on its two early returns).
+   The code modelled is /repo as it is now, i.e. including the fixes
+     d12  _check_close_code after the HAVE_DATA reply
+     d25  SmtpSession.HAVE_DATA forgets the envelope on its two early returns
+     d2b  a successful STARTTLS resets have_mailfrom/have_rcptto; TLSHANDSHAKE2 drops the envelope
+     d11  a bare AUTH is answered 501
+     d16  find_outside_quotes skips quoted-pairs inside a quoted string
+     and the clear-text gate for PLAIN/LOGIN (auth.insecure_mechanisms).
    Definitions only.
 
    What is abstracted (explicitly):
@@ -20,8 +23,10 @@
      C09/C05.  Here a DATA command comes with what the reader would return (`it_data`) and the
      number of bytes it pulled from the socket (`it_wire`, one piece); MessageTooBig is
      `max_size && it_wire > max_size` as in DataReader.recv_piece for a single piece.
-   * AuthSession.server_attempt (pysasl) is an environment oracle: the number of 334
-     challenge rounds (`au_resps`) and the outcome.  The TLS handshake is an oracle bit.
+   * AuthSession.server_attempt (pysasl) is an environment oracle: whether the mechanism named
+     is one of auth.insecure_mechanisms (PLAIN, LOGIN), the number of 334 challenge rounds
+     (`au_resps`) and the outcome; the gate `insecure and not io.encrypted -> 504` itself is
+     modelled.  The TLS handshake is an oracle bit.
    * SmtpSession has no attribute named like an all-letters upper-case command other than the
      ones Server has a `_command_` method for, so `_command_custom` never finds a handler
      (words are [A-Z]+ after recv_command); likewise no CLOSE/TLSHANDSHAKE/STARTTLS/NOOP/QUIT
@@ -62,8 +67,25 @@ Inductive auth_outcome :=
 | AOk (cid : bytes)      (* credentials returned *)
 | ABadArg                (* ValueError            -> bad_arguments 501 *)
 | AErr501                (* InvalidAuthString / AuthenticationCanceled / UnexpectedAuthError *)
-| AErr504                (* InsecureMechanismError / InvalidMechanismError *)
-| ARaise.                (* anything else (e.g. TypeError on a bare AUTH) *)
+| AErr504                (* InvalidMechanismError *)
+| ARaise                 (* anything else *)
+| AInsecure (o : auth_outcome).
+                         (* the mechanism named exists and is in auth.insecure_mechanisms (PLAIN, LOGIN):
+                            refused with InsecureMechanismError unless io.encrypted, else behaves as o *)
+
+(* what server_attempt does once it is past the clear-text gate *)
+Inductive auth_result := GOk (cid : bytes) | GBadArg | G501 | G504 | GRaise.
+
+(* `if insecure and not self.io.encrypted: raise InsecureMechanismError()`; None = refused *)
+Fixpoint au_gate (enc : bool) (o : auth_outcome) : option auth_result :=
+  match o with
+  | AOk cid => Some (GOk cid)
+  | ABadArg => Some GBadArg
+  | AErr501 => Some G501
+  | AErr504 => Some G504
+  | ARaise => Some GRaise
+  | AInsecure o' => if enc then au_gate enc o' else None
+  end.
 
 (* ------------------------------------------------------------------ input: one command line + environment *)
 Record line := { l_word : option bytes;      (* None: neither command regex matched *)
@@ -263,22 +285,24 @@ Definition KW_FROM : bytes := [70; 82; 79; 77].
 Definition KW_TO : bytes := [84; 79].
 
 (* find_outside_quotes(arg, b'>', start): the text before the first '>' outside
-   double quotes and the text after it; None = -1 *)
-Fixpoint find_gt (quoted : bool) (s : bytes) : option (bytes * bytes) :=
+   double quotes and the text after it; None = -1.  Inside a quoted string a
+   backslash makes the scanner skip the next byte (quoted-pair). *)
+Definition cons_fst (c : N) (o : option (bytes * bytes)) : option (bytes * bytes) :=
+  match o with Some (a, r) => Some (c :: a, r) | None => None end.
+
+Fixpoint find_gt_esc (quoted escaped : bool) (s : bytes) : option (bytes * bytes) :=
   match s with
   | [] => None
   | c :: s' =>
-      if quoted then
-        match find_gt (negb (c =? 34)) s' with
-        | Some (a, r) => Some (c :: a, r)
-        | None => None
-        end
-      else if c =? 62 then Some ([], s')
-      else match find_gt (c =? 34) s' with
-           | Some (a, r) => Some (c :: a, r)
-           | None => None
-           end
+      if negb quoted then
+        if c =? 62 then Some ([], s')
+        else cons_fst c (find_gt_esc (c =? 34) false s')
+      else if escaped then cons_fst c (find_gt_esc true false s')
+      else if c =? 92 then cons_fst c (find_gt_esc true true s')
+      else cons_fst c (find_gt_esc (negb (c =? 34)) false s')
   end.
+
+Definition find_gt (quoted : bool) (s : bytes) : option (bytes * bytes) := find_gt_esc quoted false s.
 
 (* _gather_params.
    param_keyword_pattern \b([a-zA-Z0-9][a-zA-Z0-9-]* )   (no blank in the real one) searched from pos
@@ -421,12 +445,14 @@ Definition command_HELO (st : sstate) (arg : option bytes) (v : verdict) : res :
         end
     end.
 
-(* _encrypt_session on success: TLSHANDSHAKE (absent), TLSHANDSHAKE2 *)
+(* _encrypt_session on success: TLSHANDSHAKE (absent), TLSHANDSHAKE2 (its `envelope = None` is
+   applied by command_STARTTLS; before the banner the envelope is None anyway) *)
 Definition encrypted_state (st : sstate) : sstate :=
   {| sv := set_encrypted true (sv st); ex := ex st; ed := set_e_tls true (ed st) |}.
 
 (* _command_STARTTLS.  SmtpSession has no STARTTLS handler: the 220 cannot be changed.
-   NOTE (D2b, property C08): have_mailfrom/have_rcptto and the edge envelope are not reset. *)
+   On success: ehlo_as = have_mailfrom = have_rcptto = None, STARTTLS dropped; TLSHANDSHAKE2
+   sets security = 'TLS' and envelope = None (SmtpSession.ehlo_as survives). *)
 Definition command_STARTTLS (st : sstate) (arg : option bytes) (tls_ok : bool) : res :=
   if negb (x_starttls (ex st)) then just st 500
   else if nonempty arg then just st 501
@@ -434,28 +460,35 @@ Definition command_STARTTLS (st : sstate) (arg : option bytes) (tls_ok : bool) :
   else if negb tls_ok then mk st [220; 421] [] XStop           (* tls_failure, StopIteration *)
   else
     let st1 := encrypted_state st in
-    mk {| sv := set_ehlo None (sv st1); ex := drop_starttls (ex st1); ed := ed st1 |}
+    mk {| sv := set_ehlo None (reset_tx (sv st1)); ex := drop_starttls (ex st1); ed := set_env None (ed st1) |}
        [220] [EvTls] XNone.
 
-(* _command_AUTH + SmtpSession.AUTH; server_attempt is the oracle (resps, out) *)
-Definition command_AUTH (st : sstate) (resps : list bytes) (out : auth_outcome) (v : verdict) : res :=
+(* _command_AUTH + SmtpSession.AUTH; server_attempt is the oracle (resps, out) behind the
+   modelled clear-text gate *)
+Definition command_AUTH (st : sstate) (arg : option bytes) (resps : list bytes) (out : auth_outcome)
+           (v : verdict) : res :=
   if negb (x_auth (ex st)) then just st 500
   else if negb (is_some (s_ehlo (sv st))) || s_authed (sv st) || s_mail (sv st) then just st 503
+  else if negb (nonempty arg) then just st 501
   else
-    let inter := map (fun _ => 334) resps in
-    match out with
-    | ABadArg => mk st (inter ++ [501]) [] XNone
-    | AErr501 => mk st (inter ++ [501]) [] XNone
-    | AErr504 => mk st (inter ++ [504]) [] XNone
-    | ARaise => mk st inter [] XExn
-    | AOk cid =>
-        match apply_verdict v 235 with
-        | None => mk st inter [EvCall KAuth cid [] None] XExn
-        | Some c =>
-            let ed2 := if c =? 235 then set_e_auth (Some cid) (ed st) else ed st in
-            let sv2 := if c =? 235 then set_authed true (sv st) else sv st in
-            mk {| sv := sv2; ex := ex st; ed := ed2 |} (inter ++ [c])
-               [EvCall KAuth cid [] (Some c)] (close_exc c)
+    match au_gate (s_encrypted (sv st)) out with
+    | None => just st 504                                   (* InsecureMechanismError *)
+    | Some r =>
+        let inter := map (fun _ => 334) resps in
+        match r with
+        | GBadArg => mk st (inter ++ [501]) [] XNone
+        | G501 => mk st (inter ++ [501]) [] XNone
+        | G504 => mk st (inter ++ [504]) [] XNone
+        | GRaise => mk st inter [] XExn
+        | GOk cid =>
+            match apply_verdict v 235 with
+            | None => mk st inter [EvCall KAuth cid [] None] XExn
+            | Some c =>
+                let ed2 := if c =? 235 then set_e_auth (Some cid) (ed st) else ed st in
+                let sv2 := if c =? 235 then set_authed true (sv st) else sv st in
+                mk {| sv := sv2; ex := ex st; ed := ed2 |} (inter ++ [c])
+                   [EvCall KAuth cid [] (Some c)] (close_exc c)
+            end
         end
     end.
 
@@ -638,7 +671,7 @@ Definition handle_command (st : sstate) (it : item) : res :=
   | CEhlo => command_EHLO st arg (it_v1 it)
   | CHelo => command_HELO st arg (it_v1 it)
   | CStarttls => command_STARTTLS st arg (it_tls_ok it)
-  | CAuth => command_AUTH st (it_au_resps it) (it_au it) (it_v1 it)
+  | CAuth => command_AUTH st arg (it_au_resps it) (it_au it) (it_v1 it)
   | CMail => command_MAIL st arg (it_v1 it)
   | CRcpt => command_RCPT st arg (it_v1 it)
   | CData => command_DATA st arg it
@@ -706,7 +739,7 @@ Record ast := {
   a_started : bool;              (* banner callback seen *)
   a_greeted : bool;              (* ... and it kept 220 *)
   a_helo : bool;                 (* EHLO/HELO accepted (since the last TLS handshake) *)
-  a_env : option envelope;       (* MAIL accepted / recipients accepted so far *)
+  a_env : option envelope;       (* MAIL accepted / recipients accepted so far (forgotten by a TLS handshake) *)
   a_data : bool;                 (* DATA accepted with 354, content callback outstanding *)
   a_queued : bool;               (* handoff done for the outstanding content *)
   a_tls : bool;
@@ -790,7 +823,7 @@ Definition aut_step (a : ast) (e : event) : option ast :=
       end
   | EvTls =>
       if allowed_tls a
-      then Some (a_upd a (a_started a) (a_greeted a) false (a_env a) false false true (a_authed a) false)
+      then Some (a_upd a (a_started a) (a_greeted a) false None false false true (a_authed a) false)
       else None
   | EvQueue s rc =>
       (* handoff only inside the content callback, once, and with exactly the
@@ -856,7 +889,8 @@ Definition malformed (l : line) : bool :=
   | CMail => bad_path KW_FROM (l_arg l) || bad_size (l_arg l)
   | CRcpt => bad_path KW_TO (l_arg l)
   | CData | CRset | CQuit | CStarttls => nonempty (l_arg l)
-  | CNoop | CAuth => false
+  | CAuth => negb (nonempty (l_arg l))
+  | CNoop => false
   end.
 
 (* the command's handler callback is not allowed by the protocol-order automaton in state a *)
